@@ -25,23 +25,31 @@ CHECKS = {
    technique="Coq proof of name-independence of reference search and engine model under renaming of clause variables (Properties/C11.v) + renamed-program relation on the implementation + model-vs-implementation correspondence"),
 
  "C06": dict(
-   text="PARTIAL. Machine-checked (all function-free terms whose complex terms have an atom functor, all substitutions, all "
-        "fuel): SOUNDNESS - a successful unification keeps every earlier binding verbatim and returns a substitution set under "
-        "which both terms denote the same term (`teq`: bindings followed, `$_` matching anything, floats by IEEE ==, lists "
-        "through their nodes with a tail variable standing for the rest) - and creates no binding cycle. Completeness and "
-        "generality are stated (unify_complete_statement), not yet proved; they are decided on every run against a reference "
-        "unifier with occurs check over the abstract list view: same success/failure, prior bindings kept, resolved values of "
-        "all variables equal to the reference mgu's up to renaming, on a sample (thorough: all) of the 119-term universe x 18 "
-        "priors, also in head/goal form; plus model-vs-implementation correspondence.", ref="7/C06",
-   technique="Coq proof of soundness + extension + acyclicity (Properties/C06.v) + reference-unifier oracle on the implementation + model-vs-implementation correspondence"),
+   text="PROVED in a semantic formulation (Spec/SpecUnifySem.v: terms denote finite trees under a valuation of the variables; a "
+        "valuation solves a substitution set when every bound variable has the value of its binding), for every fuel and every "
+        "call of unify that returns: (G) most general and (C) complete - every solution of the prior substitution that gives "
+        "both terms the same value solves the result, in particular the result is not a failure - for ALL terms and "
+        "substitution sets (`$_` denotes anything, NaN nothing): C06_general_complete; (S) sound - on plain terms (no `$_`, no "
+        "NaN, atom functors, parser-built lists) the result keeps every earlier binding verbatim and each of its solutions "
+        "solves the input and gives both terms the same value: C06_sound; plus the earlier syntactic theorems (teq soundness, "
+        "no binding cycle: Properties/C06base.v). Pairs needing an occurs check have no solution in finite trees and are thereby "
+        "outside, as the property says. FALSE of the model, with compiled witnesses (Properties/C06.v): with `$_` inside a term "
+        "that gets bound, the wildcard persists in the binding (f($X,$X) = f(g($_), g(a)) gives $X = g($_); then $X = f(a) and "
+        "$X = f(b) both succeed) - a consequence of the documented `$_` (C09), recorded in DESIGN.md section 9; NaN does not "
+        "unify with itself (IEEE ==). Tie to the code: every run compares the implementation with a reference unifier with occurs "
+        "check on the 126-term universe x 18 priors (same success, prior bindings kept, resolved values equal up to renaming), "
+        "plus model-vs-implementation correspondence.", ref="7/C06",
+   technique="Coq proof of soundness, completeness and generality of unify against a tree semantics (Properties/C06.v) + reference unifier oracle on the implementation + model-vs-implementation correspondence"),
  "C07": dict(
-   text="PARTIAL. Machine-checked: the result of a successful unification makes A and B denote the same term in both orders "
-        "(the specification relation is symmetric); constants, constant/variable, list/variable and complex/variable pairs "
-        "commute as equations between the two orders. The full statement (A = B succeeds iff B = A does, same resolved "
-        "values up to renaming) needs completeness (C06_full) and is decided on every run by unifying every generated pair "
-        "in both orders on the implementation, as written and in head/goal form (fresh ids on one side; list patterns and "
-        "[] on either side), comparing success and the resolved values of all variables.", ref="7/C07",
-   technique="Coq proof of the symmetric fragments (Properties/C07.v) + both-orders relation on the implementation + model-vs-implementation correspondence"),
+   text="PROVED (C07_symmetric_): on plain terms and plain substitution sets, if A = B succeeds with a result that has a "
+        "solution in finite trees (no occurs check was needed), then B = A - with any fuel on which it returns - succeeds too, "
+        "and the two results have exactly the same solutions, i.e. every variable gets the same value under both; plus the "
+        "earlier syntactic commutation facts (Properties/C07base.v). With `$_` the order of operands can matter (C06.v: "
+        "anon_order: f($X,$X) against f(g(a), g($_)) vs f(g($_), g(a))); the earlier statement with one fuel for both orders is "
+        "false of the model (the swapped order may need one more unit: a modelling artefact, C07_one_fuel_for_both_orders_is_false). "
+        "Tie to the code: every generated pair is unified in both orders on the implementation, as written and in head/goal "
+        "form, comparing success and the resolved values of all variables; model-vs-implementation correspondence.", ref="7/C07",
+   technique="Coq proof of symmetry of unify on plain terms via the tree semantics (Properties/C07.v) + both-orders relation on the implementation + model-vs-implementation correspondence"),
 
  "C18": dict(
    text="Machine-checked for EVERY input string (no bound on length) on the model of the parsers (after 5 repairs of panics "
@@ -54,19 +62,20 @@ CHECKS = {
    ref="7/C18",
    technique="Coq proof of totality with explicit linear fuel bounds (Properties/C18.v) + model-vs-implementation correspondence via extraction"),
  "C19": dict(
-   text="Machine-checked: (1) goal and rule level: for every canonical goal (any nesting of conjunctions/disjunctions over leaf "
-        "goals) and every canonical rule, Display yields the canonical text and the parser yields the value back, relative to "
-        "the hypothesis that the leaf parser inverts Display on each leaf text (decidable criterion `neutralb` for the "
-        "tokenizer's part); (2) term level (C19_roundtrip_terms): parse_term (show_term t) = t for every canonical term - atoms "
-        "[a-z][A-Za-z0-9_]*, 64-bit integers, variables $[A-Za-z][A-Za-z0-9_]* and $_, complex terms (functor not a function "
-        "name, text up to the 1000 characters validate_complex allows), lists with and without tail variable, nested without "
-        "bound; `canonicalb` is an executable test implying the class. NOT covered by a theorem: floats (printing/parsing of "
-        "binary64), atoms with spaces or quotes, built-in leaf goals and infix forms - decided on every run by printing "
-        "canonical ASTs with the real Display, parsing with the real parser and comparing, the model compared with both. The "
-        "proof work found where printer and parser disagreed: `[a | $_]` was rejected (repaired, 5e5ae04); a list that is a tail "
-        "variable only prints as `[$T]`; complex terms longer than 1000 characters are rejected (both outside the class).",
+   text="Machine-checked with the REAL parsers throughout: (1) C19_closed_rules: for every closed rule - head a call of arity "
+        ">= 0, body built with `,` and `;` in any nesting from calls, built-in predicates, `l = r`, `!`, fail, nl, not(leaf), "
+        "time(leaf), all arguments canonical terms - Display yields the canonical text and parse_rule of that text yields the "
+        "rule back (executable test closed_ruleb implies the class); (2) C19_roundtrip_terms: parse_term (show_term t) = t for "
+        "every canonical term (atoms [A-Za-z0-9_][A-Za-z0-9_ ]* not all digits, 64-bit integers, variables, $_, complex terms up "
+        "to validate_complex's 1000 characters, lists with and without tail variable or $_ tail, nested without bound); (3) the "
+        "goal/rule round trip for any leaf parser that inverts Display on the leaves. NOT covered by a theorem: floats "
+        "(printing/parsing of binary64), quoted atoms, functor and variable names with other characters, not/time over `=` - "
+        "decided on every run by printing canonical ASTs with the real Display, parsing with the real parser and comparing, the "
+        "model compared with both. The proof work found real disagreements of printer and parser: two repaired in the crate "
+        "([a | $_] rejected, 5e5ae04; go() rejected, 0f55f67), the others outside the documented syntax and listed with compiled "
+        "Examples in Properties/C19closed.v.",
    ref="7/C19",
-   technique="Coq proof of the term, goal and rule round trips (Properties/C19.v) + print/parse round trip on the implementation + model-vs-implementation correspondence"),
+   technique="Coq proof of the term, goal and rule round trips with the real parsers (Properties/C19.v) + print/parse round trip on the implementation + model-vs-implementation correspondence"),
  "C20": dict(
    text="Machine-checked for all strings satisfying decidable side conditions (no top-level separator, balanced brackets and "
         "quotes, no arithmetic infix - each a boolean function stated in Properties/C20.v): the text parses to the same term "
